@@ -20,7 +20,10 @@ type Case struct {
 	// ScaleExp k: Simplify is called on the case multiplied exactly by 2^k (coordinates and tolerance) and its output is
 	// divided by 2^k again before the oracle looks at it, so the oracle's margins stay at unit scale
 	ScaleExp int `json:"scale_exp,omitempty"`
-	noSweep  bool
+	// ThinExp k (kind "thin"): the y-coordinates and the tolerance are small integers (halves for the tolerance) times
+	// 2^-k, the x-coordinates ordinary increasing integers: a line that is straight to within 2^-k
+	ThinExp int `json:"thin_exp,omitempty"`
+	noSweep bool
 }
 
 func randLine(t *rapid.T, maxN int) []vkit.P2 {
@@ -36,6 +39,38 @@ func randLine(t *rapid.T, maxN int) []vkit.P2 {
 		l[i] = vkit.MkP(cg.Draw(t, "x"), cg.Draw(t, "y"))
 	}
 	return l
+}
+
+// genPoke: a shallow bay (three vertices, the apex h off the base) at the start, a detour of m vertices that stays clear
+// of the bay, and a last segment that pokes into the bay through its base: the short cut across the bay is within
+// tolerance h*f of the apex, but crosses a segment that comes m+1 segments later. Returns the line and a tolerance.
+func genPoke(t *rapid.T) ([]vkit.P2, float64) {
+	w := rapid.Float64Range(2, 6).Draw(t, "bayw")
+	h := rapid.Float64Range(0.2, 1).Draw(t, "bayh")
+	m := rapid.IntRange(1, 70).Draw(t, "detour")
+	l := [][2]float64{{0, 0}, {w / 2, h}, {w, 0}, {w + 1, -1}}
+	// a zigzag back to the left, below the base
+	x0, x1 := w+1, w/2+rapid.Float64Range(-w/8, w/8).Draw(t, "pokex")
+	amp := rapid.Float64Range(0.05, 1.5).Draw(t, "zigamp")
+	for k := 1; k <= m; k++ {
+		y := -1.5
+		if k%2 == 0 {
+			y -= amp
+		}
+		if k == m {
+			y = -1.5
+		}
+		l = append(l, [2]float64{x0 + (x1-x0)*float64(k)/float64(m), y})
+	}
+	l = append(l, [2]float64{x1, h * rapid.Float64Range(0.1, 0.5).Draw(t, "pokey")})
+	// rigid motion, so that nothing is axis-parallel
+	a := rapid.Float64Range(0, 2*math.Pi).Draw(t, "pokerot")
+	ox, oy := rapid.Float64Range(-20, 20).Draw(t, "pokeox"), rapid.Float64Range(-20, 20).Draw(t, "pokeoy")
+	out := make([]vkit.P2, len(l))
+	for i, q := range l {
+		out[i] = vkit.MkP(ox+q[0]*math.Cos(a)-q[1]*math.Sin(a), oy+q[0]*math.Sin(a)+q[1]*math.Cos(a))
+	}
+	return out, h * rapid.Float64Range(1.05, 3).Draw(t, "poketol")
 }
 
 func genLine(t *rapid.T) ([]vkit.P2, string) {
@@ -65,6 +100,27 @@ func gen(t *rapid.T) Case {
 	var c Case
 	c.Kind = rapid.SampledFrom([]string{"line", "line", "line", "line", "multiline", "polygon", "multipolygon", "batch"}).Draw(t, "kind")
 	c.Tol = genTol(t)
+	if rapid.IntRange(0, 24).Draw(t, "thin") == 13 {
+		// an x-monotone line whose vertices leave the x-axis by a few units of 2^-k only, k up to the subnormal range, with
+		// a tolerance of the same order (or zero): every distance that matters is far below the rounding unit of the
+		// x-coordinates, yet exactly representable
+		c.Kind = "thin"
+		c.ThinExp = rapid.SampledFrom([]int{60, 300, 520, 540, 700, 1000, 1060}).Draw(t, "thinexp")
+		u := math.Ldexp(1, -c.ThinExp)
+		n := rapid.IntRange(3, 12).Draw(t, "thinn")
+		x := 0.0
+		var l []vkit.P2
+		for i := 0; i < n; i++ {
+			l = append(l, vkit.MkP(x, float64(rapid.IntRange(-8, 8).Draw(t, "thiny"))*u))
+			x += float64(rapid.IntRange(1, 4).Draw(t, "thindx"))
+		}
+		if rapid.Bool().Draw(t, "thinflatends") {
+			l[0][1], l[n-1][1] = 0, 0
+		}
+		c.Lines = [][]vkit.P2{l}
+		c.Tol = vkit.F(float64(rapid.SampledFrom([]int{0, 0, 1, 2, 3, 5, 8, 40}).Draw(t, "thintol")) / 2 * u)
+		return c
+	}
 	if c.Kind == "batch" {
 		// 40 short lines of 5-9 random points in a 20x20 box with a tolerance of the box's order: the lines on which the
 		// scan overshoots and has to back off (each is simplified and judged on its own; most are not simple and only
@@ -126,6 +182,15 @@ func gen(t *rapid.T) Case {
 	case "line":
 		l, s := genLine(t)
 		c.Lines, c.Style = [][]vkit.P2{l}, s
+		if rapid.IntRange(0, 5).Draw(t, "poke") == 2 {
+			var tol float64
+			l, tol = genPoke(t)
+			c.Lines, c.Style, c.Tol = [][]vkit.P2{l}, "poke", vkit.F(tol)
+			if c.ScaleExp != 0 {
+				// the tolerance has to scale exactly with the line
+				c.Tol = vkit.F(math.Ldexp(math.Round(math.Ldexp(tol, 20)), -20))
+			}
+		}
 	case "multiline":
 		n := rapid.IntRange(0, 3).Draw(t, "nl")
 		for i := 0; i < n; i++ {
@@ -206,6 +271,11 @@ func toPath(l []vkit.P2) geom.Path {
 // checkCurve verifies the subsequence / endpoint / tolerance clauses for one input curve and its output.
 // It returns the number of dropped vertices.
 func checkCurve(in, out geom.Path, tol float64) (dropped int, msg string) {
+	return checkCurveSlack(in, out, tol, -1)
+}
+
+// checkCurveSlack: slack < 0 selects the default rounding allowance (see below).
+func checkCurveSlack(in, out geom.Path, tol, slackGiven float64) (dropped int, msg string) {
 	n, m := len(in), len(out)
 	if n == 0 {
 		if m != 0 {
@@ -233,6 +303,9 @@ func checkCurve(in, out geom.Path, tol float64) (dropped int, msg string) {
 		maxabs = math.Max(maxabs, math.Max(math.Abs(q.X), math.Abs(q.Y)))
 	}
 	slack := 1e-12 + 16*maxabs*0x1p-52
+	if slackGiven >= 0 {
+		slack = slackGiven
+	}
 	within := func(i, j int) bool {
 		for k := i + 1; k < j; k++ {
 			d := vkit.DistPtSeg(vkit.MkP(in[k].X, in[k].Y), vkit.MkP(in[i].X, in[i].Y), vkit.MkP(in[j].X, in[j].Y))
@@ -364,6 +437,28 @@ func run(c Case) (v vkit.Verdict) {
 		}
 	}
 	v.Class(c.Kind)
+	if c.Kind == "thin" {
+		in := geom.LineString(toPath(c.Lines[0]))
+		orig := append(geom.LineString(nil), in...)
+		out := in.Simplify(tol).(geom.LineString)
+		if !reflect.DeepEqual(in, orig) {
+			return v.Fail("input line was modified")
+		}
+		// distances and tolerance are multiples of 2^-k/80 at least; the allowance is a millionth of 2^-k (the foot of the
+		// perpendicular is uncertain by ulps of x, which changes the distance to a nearly horizontal chord by far less)
+		d, msg := checkCurveSlack(geom.Path(in), geom.Path(out), tol, 1e-6*math.Ldexp(1, -c.ThinExp))
+		if msg != "" {
+			return v.Fail("line straight to within 2^-%d (%d vertices, tol %v = %v units): %s; input %v output %v", c.ThinExp, len(in), tol, tol*math.Ldexp(1, c.ThinExp), msg, in, out)
+		}
+		if d > 0 {
+			v.Class("thin_dropped_vertices")
+		}
+		if len(out) > 2 {
+			v.Class("thin_kept_vertices")
+		}
+		v.NonTrivial = true
+		return v
+	}
 	if c.Kind == "batch" {
 		for _, l := range c.Lines {
 			sub := run(Case{Kind: "line", Lines: [][]vkit.P2{l}, Tol: c.Tol, Style: "box", noSweep: true})
@@ -528,7 +623,7 @@ func run(c Case) (v vkit.Verdict) {
 func TestProp(t *testing.T) {
 	vkit.Main(t, vkit.Spec[Case]{
 		ID: "C13",
-		Rule: "rapid: batches of 40 lines in a 20x20 box with tolerance 1-10 (1 case in 8; 5-9 uniform random points, or 8-15 points grown one by one with every new segment clear of the line so far - simple, criss-crossing lines on which the scan overshoots and backs off; coordinates are a splitmix64 expansion of one drawn 64-bit value because rapid's own number generators favour small and boundary values), and line strings of 0-40 vertices (1 in 40: 200-600), in 1 case of 3 handed to Simplify multiplied exactly by 2^k (k in +-40 or +-300; coordinates and tolerance; the output is divided by 2^k again, so the oracle and its margins work at unit scale): simple by construction via self-avoiding growth (random walk, outward/inward spiral, zig-zag, hook that " +
+		Rule: "rapid: 'thin' lines (1 case in 25: 3-12 vertices, x increasing integers, y = m*2^-k with |m| <= 8 and k in {60,...,1060}, tolerance 0 or a few halves of 2^-k; allowance a millionth of 2^-k instead of the one below) and 'poke' lines (1 line case in 6: a shallow bay of three vertices, a detour of 1-70 vertices clear of it, a last segment entering the bay through its base; tolerance 1.05-3 times the bay's depth, so that the short cut across the bay is within tolerance but crossed by a segment that comes that many places later); batches of 40 lines in a 20x20 box with tolerance 1-10 (1 case in 8; 5-9 uniform random points, or 8-15 points grown one by one with every new segment clear of the line so far - simple, criss-crossing lines on which the scan overshoots and backs off; coordinates are a splitmix64 expansion of one drawn 64-bit value because rapid's own number generators favour small and boundary values), and line strings of 0-40 vertices (1 in 40: 200-600), in 1 case of 3 handed to Simplify multiplied exactly by 2^k (k in +-40 or +-300; coordinates and tolerance; the output is divided by 2^k again, so the oracle and its margins work at unit scale): simple by construction via self-avoiding growth (random walk, outward/inward spiral, zig-zag, hook that " +
 			"curls back over its own chord), arbitrary random/lattice vertex sequences (duplicates, self-crossing), lengths 0,1,2 weighted; tolerance from " +
 			"{0,1e-12,0.5,1,1e9,+Inf} or uniform; multi-line strings, polygons and multi-polygons (star polygons with subdivided edges, random rings). Oracle: " +
 			"termination (watchdog), existence of an increasing index map showing the output is a subsequence keeping first and last vertex with every dropped " +
